@@ -89,8 +89,13 @@ def run_case(case):
                 v_ = rng.getrandbits(dw)
                 try:
                     dut.init[k_] = v_
+                    patched = True
                 except (TypeError, ValueError, IndexError):
-                    pass
+                    patched = False
+                if patched:
+                    # an item assignment that was accepted is not silently lost (a refusing, immutable image is fine)
+                    mon.run(lambda: mon.eq("init_history", dut.init[k_], v_,
+                                           f"init[{k_}] = {v_:#x} was accepted, but init[{k_}] then reads"))
                 model = list(dut.init)
                 mon.count("init_history_ops")
                 continue
